@@ -846,3 +846,92 @@ m('C20','benign-fetch-rename',DW,
   '\tn := t.remote.GetPacket(seqno, buf, false)\n\tif n == 0 {\n\t\treturn\n\t}\n\tp := new(rtp.Packet)\n\terr := p.Unmarshal(buf[:n])',
   '\tlength := t.remote.GetPacket(seqno, buf, false)\n\tif length < 1 {\n\t\treturn\n\t}\n\tp := &rtp.Packet{}\n\terr := p.Unmarshal(buf[:length])',
   '','','equivalent rewrite of fetch',benign=True)
+# ---------------- C04 ----------------
+m('C04','sid-switch-any-frame',R,
+  '\tif flags.Start && (layer.sid != layer.wantedSid) {\n\t\tif flags.Keyframe {\n\t\t\tlayer.sid = layer.wantedSid\n\t\t\tdown.setLayerInfo(layer)\n\t\t} else {\n\t\t\tdown.remote.RequestKeyframe()\n\t\t}\n\t}',
+  '\tif flags.Start && (layer.sid != layer.wantedSid) {\n\t\tlayer.sid = layer.wantedSid\n\t\tdown.setLayerInfo(layer)\n\t}',
+  'R4.1','Write: layer.sid = layer.wantedSid','spatial layer switched at a delta frame: undecodable',quick=True)
+m('C04','sid-switch-mid-frame',R,
+  '\tif flags.Start && (layer.sid != layer.wantedSid) {\n\t\tif flags.Keyframe {','\tif layer.sid != layer.wantedSid {\n\t\tif flags.Keyframe {',
+  'R4.1','Write: layer.sid = layer.wantedSid','spatial layer switched in the middle of a keyframe')
+m('C04','sid-eager-limited',R,
+  '\t\t\tif layer.sid == layer.maxSid && !layer.limitSid {','\t\t\tif layer.sid == layer.maxSid {',
+  'R4.1','Write: layer.sid = flags.Sid','a limited receiver follows a new top spatial layer')
+m('C04','sid-eager-always',R,
+  '\t\t\tif layer.sid == layer.maxSid && !layer.limitSid {','\t\t\tif !layer.limitSid {',
+  'R4.1','Write: layer.sid = flags.Sid','any receiver jumps to a new top layer mid-stream')
+m('C04','tid-rise-without-sync',R,
+  '\t\t} else if flags.TidUpSync && flags.Tid <= layer.wantedTid {','\t\t} else if flags.Tid <= layer.wantedTid {',
+  'R4.2','Write: layer.tid = flags.Tid #2','temporal layer raised at a frame that is not an up-switch point',quick=True)
+m('C04','tid-rise-above-wanted',R,
+  '\t\t} else if flags.TidUpSync && flags.Tid <= layer.wantedTid {','\t\t} else if flags.TidUpSync {',
+  'R4.2','Write: layer.tid = flags.Tid #2','temporal layer raised above the wanted one')
+m('C04','tid-switch-mid-frame',R,
+  '\tif flags.Start && (layer.tid != layer.wantedTid) {','\tif layer.tid != layer.wantedTid {',
+  'R4.2','Write: layer.tid = layer.wantedTid','temporal layer changed in the middle of a frame')
+m('C04','tid-rise-any-start',R,
+  '\t\t} else if layer.wantedTid < layer.tid {\n\t\t\tlayer.tid = layer.wantedTid','\t\t} else if layer.wantedTid != layer.tid {\n\t\t\tlayer.tid = layer.wantedTid',
+  'R4.2','Write: layer.tid = layer.wantedTid #2','temporal layer raised at any frame start')
+m('C04','tid-eager-always',R,
+  '\t\t\tif layer.tid == layer.maxTid {','\t\t\tif layer.tid <= layer.maxTid {',
+  'R4.2','Write: layer.tid = flags.Tid','every receiver jumps to a new top temporal layer')
+m('C04','max-decreases',R,
+  '\tif flags.Tid > layer.maxTid || flags.Sid > layer.maxSid {\n\t\tif flags.Tid > layer.maxTid {','\tif flags.Tid != layer.maxTid || flags.Sid > layer.maxSid {\n\t\tif flags.Tid != layer.maxTid {',
+  'R4.3','Write: layer.maxTid = flags.Tid','highest layer seen follows every packet down')
+m('C04','adjust-two-steps',R,
+  '\t\t\tlayer.wantedTid = layer.tid + 1','\t\t\tlayer.wantedTid = layer.tid + 2',
+  'R4.3','adjustLayer: wantedTid','wanted layer jumps beyond the highest seen')
+m('C04','adjust-up-unbounded',R,
+  '\t\t} else if layer.tid < layer.maxTid {\n\t\t\tlayer.wantedTid = layer.tid + 1','\t\t} else if layer.tid < 15 {\n\t\t\tlayer.wantedTid = layer.tid + 1',
+  'R4.3','adjustLayer: wantedTid = layer.tid + 1','wanted layer above the highest seen')
+m('C04','adjust-down-below-zero',R,
+  '\t\tif layer.tid > 0 {\n\t\t\tlayer.wantedTid = layer.tid - 1','\t\tif layer.maxTid > 0 {\n\t\t\tlayer.wantedTid = layer.tid - 1',
+  'R4.3','adjustLayer: wantedTid = layer.tid - 1','0 - 1 wraps to 255, packed as 15')
+m('C04','adjust-sets-current',R,
+  '\t\t} else if !layer.limitSid && layer.sid < layer.maxSid {\n\t\t\tlayer.wantedSid = layer.sid + 1','\t\t} else if !layer.limitSid && layer.sid < layer.maxSid {\n\t\t\tlayer.sid = layer.sid + 1\n\t\t\tlayer.wantedSid = layer.sid',
+  'R4.3','adjustLayer: sid','bandwidth feedback switches the spatial layer immediately')
+m('C04','adjust-up-limited',R,
+  '\t\t} else if !layer.limitSid && layer.sid < layer.maxSid {','\t\t} else if layer.sid < layer.maxSid {',
+  'R4.3','adjustLayer: wantedSid = layer.sid + 1','limited track raised again')
+m('C04','adjust-double',R,
+  '\t\tif layer.tid > 0 {\n\t\t\tlayer.wantedTid = layer.tid - 1\n\t\t\tt.setLayerInfo(layer)\n\t\t} else if layer.sid > 0 {','\t\tif layer.tid > 0 {\n\t\t\tlayer.wantedTid = layer.tid - 1\n\t\t\tt.setLayerInfo(layer)\n\t\t}\n\t\tif layer.sid > 0 {',
+  'R4.3','adjustLayer: one step per call','both dimensions lowered by one feedback event')
+m('C04','drop-only-tid',R,
+  '\tif flags.Tid > layer.tid || flags.Sid > layer.sid ||\n\t\t(flags.Sid < layer.sid && flags.SidNonReference) {','\tif flags.Tid > layer.tid ||\n\t\t(flags.Sid < layer.sid && flags.SidNonReference) {',
+  'R4.4','packets above the current sid','higher spatial layers forwarded',quick=True)
+m('C04','drop-strictly-above',R,
+  '\tif flags.Tid > layer.tid || flags.Sid > layer.sid ||','\tif flags.Tid > layer.tid+1 || flags.Sid > layer.sid ||',
+  'R4.4','packets above the current tid','the next temporal layer up is forwarded')
+m('C04','switch-after-drop',R,
+  '\tok, newseqno, piddelta := down.packetmap.Map(flags.Seqno, flags.Pid)','\tif flags.Keyframe {\n\t\tlayer.sid = layer.wantedSid\n\t}\n\tok, newseqno, piddelta := down.packetmap.Map(flags.Seqno, flags.Pid)',
+  'R4.4','the selection is final','selection changed after the packet was tested against it')
+m('C04','limit-not-installed','rtpconn/webclient.go',
+  '\t\t\tlayer.limitSid = limitSid\n\t\t\tif limitSid {','\t\t\tif limitSid {',
+  'R4.5','replaceTracks installs the limit','video-low request has no effect on a non-simulcast publisher')
+m('C04','limit-keeps-wanted','rtpconn/webclient.go',
+  '\t\t\tlayer.limitSid = limitSid\n\t\t\tif limitSid {\n\t\t\t\tlayer.wantedSid = 0\n\t\t\t}','\t\t\tlayer.limitSid = limitSid',
+  'R4.5','installing the limit resets','limited receiver keeps the high layer until bandwidth feedback arrives')
+m('C04','limit-with-simulcast','rtpconn/webclient.go',
+  '\t\tif count < 2 {\n\t\t\tlimitSid = true\n\t\t}','\t\tif count >= 0 {\n\t\t\tlimitSid = true\n\t\t}',
+  'R4.5','the limit is requested only','simulcast low stream additionally pinned')
+m('C04','steer-removed',R,
+  '\t\tif layer.limitSid && layer.wantedSid != 0 {\n\t\t\tlayer.wantedSid = 0\n\t\t\tt.setLayerInfo(layer)\n\t\t} else if !layer.limitSid && layer.sid < layer.maxSid {','\t\tif !layer.limitSid && layer.sid < layer.maxSid {',
+  'R4.5','adjustLayer steers','limited track never steered to layer 0')
+m('C04','ceiling-no-floor',R,
+  '\t\tif rate < minLossRate {\n\t\t\trate = minLossRate\n\t\t}','',
+  'R4.6','maxBitrate.Set in','ceiling decays below the minimum under sustained loss',quick=True)
+m('C04','ceiling-no-cap',R,
+  '\t\t\tif rate > maxLossRate {\n\t\t\t\trate = maxLossRate\n\t\t\t}','',
+  'R4.6','maxBitrate.Set in','ceiling grows without bound')
+m('C04','ceiling-reset-test',R,
+  '\tif rate < minLossRate || rate > maxLossRate {','\tif rate > maxLossRate {',
+  'R4.6','maxBitrate.Set in','a stale tiny value is kept')
+m('C04','ceiling-direct',R,
+  '\ttrack.stats.Set(report.FractionLost, report.Jitter, jiffies)','\ttrack.stats.Set(report.FractionLost, report.Jitter, jiffies)\n\tif report.FractionLost == 255 {\n\t\ttrack.maxBitrate.Set(0, jiffies)\n\t}',
+  'R4.6','maxBitrate.Set in','ceiling set to zero on total loss')
+m('C04','benign-adjust-reorder',R,
+  '\t\tif layer.tid > 0 {\n\t\t\tlayer.wantedTid = layer.tid - 1\n\t\t\tt.setLayerInfo(layer)','\t\tif 0 < layer.tid {\n\t\t\tlayer.wantedTid = layer.tid - 1\n\t\t\tt.setLayerInfo(layer)',
+  '','','flipped comparison',benign=True)
+m('C04','benign-clamp-form',R,
+  '\t\tif rate < minLossRate {\n\t\t\trate = minLossRate\n\t\t}','\t\tif rate <= minLossRate {\n\t\t\trate = minLossRate\n\t\t}',
+  '','','equivalent clamp',benign=True)
